@@ -1640,7 +1640,10 @@ func (r *run) checkSenderIDs(m *Model) {
 		}
 		var evs []ev
 		for _, w := range c.Down {
-			if w.P.Type == refmqtt.PUBLISH && w.P.QoS > 0 {
+			// (identifiers handed out before the harness moved the connection's
+			// counter next to the wrap-around are not compared with later ones:
+			// the jump is not something the library did)
+			if w.P.Type == refmqtt.PUBLISH && w.P.QoS > 0 && w.First > r.h.PIDSetStamp {
 				evs = append(evs, ev{w.First, true, w})
 			}
 		}
